@@ -42,6 +42,9 @@ pub fn anim_desc_strategy() -> impl Strategy<Value = AnimDesc> {
     let st = |w_anim: u32, w_none: u32| {
         prop_oneof![
             w_none => Just(None),
+            // a registered timeline that happens to be an EMPTY merge: it animates nothing and has ended
+            // at once, but the state still "has a timeline" (entering it discards a remembered pause)
+            1 => Just(Some(vec![])),
             w_anim * 6 => comp().prop_map(|c| Some(vec![c])),
             w_anim * 2 => (comp(), comp()).prop_map(|(a, b)| Some(vec![a, b])),
             w_anim => (comp(), comp(), comp()).prop_map(|(a, b, c)| Some(vec![a, b, c])),
@@ -204,7 +207,7 @@ impl<'a> Exec<'a> {
                 if !total.is_finite() || !self.t.exact {
                     return one;
                 }
-                let target = total + cycles as f64 * comps[0].timing.cycle as f64;
+                let target = total + cycles as f64 * comps.first().map(|c| c.timing.cycle as f64).unwrap_or(0.0);
                 let rem = target - self.t.secs;
                 // exact only if the remaining time is a whole number of grid units and representable
                 if rem > 0.0 && exact32(rem) && (rem * 512.0).fract() == 0.0 && rem * 512.0 < 1e15 {
